@@ -120,11 +120,12 @@ Proof.
   destruct r as [| |S]; cbn [is_void NodeInv] in *; [discriminate|tauto|tauto].
 Qed.
 
-Lemma and_node i cs rs : (i < length C)%nat -> nth i C FalseN = And cs -> Forall2 NodeInv cs rs ->
+Lemma and_node i cs rs : (i < length C)%nat -> Live.Reach C i -> nth i C FalseN = And cs ->
+  Forall2 NodeInv cs rs ->
   NodeInv i (if existsb is_void rs then Void
              else sres_of (and_merge_all d n t ord_int ord_sort i (samples_of rs))).
 Proof.
-  intros Hi E HF.
+  intros Hi HRi E HF.
   assert (Hch : forall c, In c cs -> (c < length C)%nat).
   { intros c Hc. assert (c < i)%nat by (apply (child_lt C n HQ i c Hi); now rewrite E). lia. }
   destruct (existsb is_void rs) eqn:Ev.
@@ -201,7 +202,7 @@ Proof.
       - intros v. rewrite G3, HVi. reflexivity.
       - intros Hne. destruct (G4 Hne) as [c [v [H1 H2]]]. exists v. apply HVi. now exists c. }
     destruct Hgood as [Hg1 [Hg2 [Hg3 Hg4]]].
-    destruct (and_merge_all_good C n t HQ i cs Hi E Hpos ord_int ord_sort Hord_int Hord_sort i
+    destruct (and_merge_all_good C n t HQ i cs Hi HRi E Hpos ord_int ord_sort Hord_int Hord_sort i
                 (samples_of rs) eq_refl Hg1 Hg2) as [HR Hvars]. cbv zeta in *. fold d in HR, Hvars.
     set (R := and_merge_all d n t ord_int ord_sort i (samples_of rs)) in *.
     unfold sres_of. destruct HR as [[Ee Ev']|[Ee [HS [HC [_ _]]]]]; rewrite Ee; cbn [NodeInv].
